@@ -3356,7 +3356,12 @@ func renderedOutputVerbatim(c *Check, a *Anchors) {
 				}
 				return true
 			})
-			c.Decide(post == "", "rendered-output-verbatim", "result@"+fnDisplay(fb.Root()), r.Pos(), "the rendered text is returned unchanged",
+			// keyed by WHAT is done to the text (and in which package), not by the function it currently lives in
+			key := "result@" + fb.Pkg.PkgPath[len(Mod)+1:]
+			if post != "" {
+				key = post + "@" + fb.Pkg.PkgPath[len(Mod)+1:]
+			}
+			c.Decide(post == "", "rendered-output-verbatim", key, r.Pos(), "the rendered text is returned unchanged",
 				"the rendered text is passed through "+post+" before it is returned: those bytes disappear from every value — also from forwarded CLI arguments and shell-quoted variables")
 		}
 	}
